@@ -32,6 +32,7 @@ def step (op implObs : String) : String × List String × List String :=
   let viol :=
     (if implObs.startsWith "panic:" then ["C08 reader-panic " ++ ((implObs.splitOn ":").take 2 |> ":".intercalate)] else []) ++
     (if kvStr itoks "end" = "hang" then ["C08 reader-hang"] else []) ++
+    (if (kvStr itoks "end").startsWith "panic" then ["C08 reader-panic " ++ kvStr itoks "end"] else []) ++
     (if kvStr itoks "big" = "1" then ["C08 reader-alloc-exceeds-bound"] else []) ++
     (if implMsgs = "-" ∨ implMsgs = "" then [] else
       ((implMsgs.splitOn ";").filterMap (msgBoundViol max)).eraseDups.map fun k => s!"C08 reader-delivers-oversized kind={k}")
